@@ -166,7 +166,7 @@ class World:
             res = F(img, {'k': n}, None if fmt == 'GRAY' and n % 2 else fmt)
         elif k == 'fromJpg':
             _, n, fmt, dims = op
-            b = self.blobs[n] = blob(self.cseed, n, shape_of(self.size, fmt))
+            b = self.blobs[n] = blob(self.cseed, n, shape_of(self.size, fmt)) + (b'\x00' if n % 3 == 2 else b'')    # every third JPEG is padded after its EOI marker (MJPEG chunks)
             b = bytearray(b) if n % 2 else b
             res = F.from_jpg(b, {'k': n}, self.size[0], self.size[1], fmt) if dims else F.from_jpg(b, {'k': n}, format=(None if fmt == 'BGR' and n % 2 else fmt))
         elif k == 'fromData':
@@ -528,12 +528,69 @@ def gen_random(ctx, batch, count):
     return malformed
 
 
+def bad_dims_campaign(ctx, n):
+    """A jpg-backed frame whose declared height / width do not match the JPEG (header of a foreign publisher, transposed values): the first pixel access
+    raises AssertionError; a caller that survives it (try/except around one bad frame) goes on using the frame.  Whatever it does then, the global clauses
+    still hold - in particular a cached JPEG is never attached to pixels that can still change.  Harness-only (the model has no malformed frames)."""
+    res, rng = ctx.result, ctx.rng
+    if ctx.replay:
+        cases = [ctx.replay['case']] if (ctx.replay.get('case') or {}).get('kind') == 'bad-dims' else []
+    else:
+        cases = []
+        for _ in range(n):
+            h, wd = rng.choice([(2, 3), (5, 4), (16, 16), (32, 24)])
+            dims = rng.choice([(wd, h), (h + 1, wd), (h, wd + 1), (h * 2, wd), (1, 1)])
+            if dims == (h, wd): dims = (h + 1, wd)
+            ops, nn = [], 1
+            for _ in range(rng.randint(1, 8)):
+                a = rng.choice(['image', 'rw', 'ro', 'copy', 'pickle', 'jpg', 'write', 'write', 'rgb', 'bgr', 'rw_bgr', 'ro_rgb'])
+                t = 0 if rng.random() < 0.6 else -1
+                ops.append([a, t, nn]); nn += 1
+            cases.append({'kind': 'bad-dims', 'size': [h, wd], 'dims': list(dims), 'fmt': rng.choice(['BGR', 'RGB', 'GRAY']), 'cseed': rng.randrange(1, 1 << 30), 'ops0': ops})
+    raised = 0
+    for c in cases:
+        # concretise against the growing frame list: target -1 = the newest frame
+        w_ops = []
+        for a, t, nn in c['ops0']:
+            w_ops.append(('A', a, t, nn))
+        c2 = dict(c); c2['ops'] = []
+        # ops are concretised lazily: World.apply wants absolute targets, the newest frame is only known while running
+        out, r = _run_bad_dims(c2, w_ops)
+        raised += r
+        res.note({'bad_dims': c['dims'], 'size': c['size'], 'fmt': c['fmt'], 'ops': [o[1] for o in w_ops]}, nontrivial=False)
+        for key, what in out[:1]: res.violations.append(Violation(key, what, dict(c, ops=[])))
+    res.extra['bad_dims'] = {'cases': len(cases), 'first_access_raised': raised}
+
+
+def _run_bad_dims(case, w_ops):
+    w = World(case)
+    h, wd = case['size']; dh, dw = case['dims']; fmt = case['fmt']
+    f = _Frame.from_jpg(blob(case['cseed'], 0, shape_of((h, wd), fmt)), {'k': 0}, dh, dw, fmt)
+    w.frames.append(f)
+    try: f.image; raised = 0
+    except Exception: raised = 1
+    for _, a, t, nn in w_ops:
+        tgt = 0 if t == 0 else len(w.frames) - 1
+        try:
+            op = concretise(a, tgt, w.frames[tgt].format, nn)
+            w.apply(op, check=False)
+        except (AssertionError, ValueError): pass
+        except Exception as e: return [('bad-dims:exception', f'{a}: {type(e).__name__}: {e}')], raised
+        try: w.observe()
+        except (AssertionError, ValueError): pass
+        if w.violations:
+            return [('bad-dims:' + k, what + f' - frame made by from_jpg with dims {dh}x{dw} for a {h}x{wd} {fmt} JPEG, first pixel access raised={bool(raised)}, then ops {[o[1] for o in w_ops]}') for k, what in w.violations], raised
+    return [], raised
+
+
 def run(ctx):
     logging.disable(logging.CRITICAL)
     _imports()
     res = ctx.result
+    bad_dims_campaign(ctx, 3000 if ctx.thorough else 300)
     if ctx.replay:
         c = ctx.replay.get('case')
+        if c and c.get('kind') == 'bad-dims': return
         if c:
             b = Batch(ctx, every_step=True); b.add(c); b.flush()
         return
